@@ -7,7 +7,12 @@ import NetaddrVerif.Model.ComparePickle
   `sorted L L'`        `sorted(L)` and whether `sorted(L')` is the same list
   `roundtrip OBJ how`  the object rebuilt by copy / deepcopy / p0..p5, or `!tag`
   objects: `A:ver:val` `N:ver:val:plen` `R:ver:lo:hi` (IPRange and IPGlob)
-           `S:[N:…,…]` (IPSet) `E:ver:val:dialect` (EUI) -/
+           `S:[N:…,…]` (IPSet) `E:ver:val:dialect` (EUI)
+           `G:s:<hex>` (IPGlob built from that text; printed `G:lo:hi:s:<hex of str()>`)
+           `O:val:<pyval>` (OUI with its records) `I:val:<pyval>` (IAB with its record)
+  pyval: Polish notation, items joined by `.`: `i<int>` `s<hex>` `n` `c<id>` `t<k>` `l<k>` (tuple / list of the
+         next k values) `d<k>` (dict of the next k key, value pairs)
+  The round trips are the `…V` functions of Model/ComparePickle.lean (states as Python values). -/
 namespace NV.Driver.C12
 open NV NV.Proto NV.Cmp
 
@@ -48,6 +53,50 @@ def showNetTok (n : Net) : String := s!"N:{n.ver}:{n.val}:{n.plen}"
 def sortForShow (l : List Net) : List Net :=
   l.mergeSort (fun a b => tupleLe [a.ver, a.val, a.plen] [b.ver, b.val, b.plen])
 
+/-- Polish-notation reader for `PyVal`; the fuel bounds the nesting + length -/
+def readVals : Nat → Nat → List String → Option (List PyVal × List String)
+  | _, 0, rest => some ([], rest)
+  | 0, _, _ => none
+  | fuel + 1, k + 1, tok :: rest =>
+    let body := (tok.drop 1).toString
+    let one : Option (PyVal × List String) :=
+      if tok.startsWith "i" then (parseInt body).map (fun i => (PyVal.int i, rest))
+      else if tok.startsWith "s" then (parseStr ("s:" ++ body)).map (fun cs => (PyVal.str cs, rest))
+      else if tok == "n" then some (PyVal.none, rest)
+      else if tok.startsWith "c" then body.toNat?.map (fun i => (PyVal.cls i, rest))
+      else if tok.startsWith "t" then do
+        let (xs, r) ← readVals fuel (← body.toNat?) rest; pure (PyVal.tuple xs, r)
+      else if tok.startsWith "l" then do
+        let (xs, r) ← readVals fuel (← body.toNat?) rest; pure (PyVal.list xs, r)
+      else if tok.startsWith "d" then do
+        let (xs, r) ← readVals fuel (2 * (← body.toNat?)) rest
+        let rec pairs : List PyVal → List (PyVal × PyVal)
+          | a :: b :: t => (a, b) :: pairs t
+          | _ => []
+        pure (PyVal.dict (pairs xs), r)
+      else none
+    match one with
+    | none => none
+    | some (v, r) => match readVals fuel k r with
+      | none => none
+      | some (vs, r') => some (v :: vs, r')
+  | _, _ + 1, [] => none
+
+def parseVal (tok : String) : Option PyVal :=
+  let toks := tok.splitOn "."
+  match readVals (toks.length + 1) 1 toks with
+  | some ([v], []) => some v
+  | _ => none
+
+partial def showVal : PyVal → List String
+  | .int i => ["i" ++ toString i]
+  | .str cs => ["s" ++ ((showStr cs).drop 2).toString]
+  | .none => ["n"]
+  | .cls i => ["c" ++ toString i]
+  | .tuple xs => ("t" ++ toString xs.length) :: xs.flatMap showVal
+  | .list xs => ("l" ++ toString xs.length) :: xs.flatMap showVal
+  | .dict kvs => ("d" ++ toString kvs.length) :: kvs.flatMap (fun kv => showVal kv.1 ++ showVal kv.2)
+
 def handle (op : String) (args : List String) : Option String :=
   match op, args with
   | "cmp", [x, y] => do
@@ -65,15 +114,36 @@ def handle (op : String) (args : List String) : Option String :=
     let how ← parseHow how
     if o.startsWith "S:" then
       let nets ← (← parseList (o.drop 2).toString).mapM parseNet
-      pure (showR (fun s => "S:" ++ showList ((sortForShow s).map showNetTok)) (roundtripSet how nets))
+      pure (showR (fun s => "S:" ++ showList ((sortForShow s).map showNetTok)) (roundtripSetV how nets))
     else if o.startsWith "E:" then
       let e ← parseEui o
-      pure (showR (fun e => s!"E:{e.ver}:{e.val}:{e.dialect}") (roundtripEui how e))
+      pure (showR (fun e => s!"E:{e.ver}:{e.val}:{e.dialect}") (roundtripEuiV how e))
+    else if o.startsWith "G:" then
+      let text ← parseStr (o.drop 2).toString
+      -- the object is built by the model's `IPGlob(text)`, then copied
+      pure (showR (fun g => s!"G:{g.lo}:{g.hi}:" ++ showStr g.glob) (Glob.ipGlob text >>= roundtripGlobV how))
+    else if o.startsWith "O:" then
+      match o.splitOn ":" with
+      | [_, v, rec] =>
+        let o : Oui := ⟨← v.toNat?, ← parseVal rec⟩
+        pure (showR (fun o => s!"O:{o.val}:" ++ ".".intercalate (showVal o.records)) (roundtripOuiV how o))
+      | _ => none
+    else if o.startsWith "I:" then
+      match o.splitOn ":" with
+      | [_, v, rec] =>
+        let o : Iab := ⟨← v.toNat?, ← parseVal rec⟩
+        pure (showR (fun o => s!"I:{o.val}:" ++ ".".intercalate (showVal o.record)) (roundtripIabV how o))
+      | _ => none
     else
       match ← parseObj o with
-      | .addr a => pure (showR (fun a => showObj (.addr a)) (roundtripAddr how a))
-      | .net n => pure (showR (fun n => showObj (.net n)) (roundtripNet how n))
-      | .rng r => pure (showR (fun r => showObj (.rng r)) (roundtripRng how r))
+      | .addr a => pure (showR (fun a => showObj (.addr a)) (roundtripAddrV how a))
+      | .net n => pure (showR (fun n => showObj (.net n)) (roundtripNetV how n))
+      | .rng r => pure (showR (fun r => showObj (.rng r)) (roundtripRngV how r))
+  | "roundtrip_default_set", [o, how] => do
+    -- what IPSet would do WITHOUT its `__reduce__` (a subclass that restores the default on the real side)
+    let how ← parseHow how
+    let nets ← (← parseList (o.drop 2).toString).mapM parseNet
+    pure (showR (fun s => "S:" ++ showList ((sortForShow s).map showNetTok)) (roundtripSetDefault how nets))
   | _, _ => none
 
 end NV.Driver.C12
